@@ -202,3 +202,77 @@ def replay_daqmx_case(case):
         if len(fails) > 6:
             break
     return {"n": n, "keys": [zlib.crc32(repr(cfg).encode())], "fails": fails[:8], "validated": 1}
+
+
+def large_sparse_check():
+    """A segment with more than 2 GiB of raw data (1 100 000 chunks of 1000 Int16 values), once as DAQmx raw data and once
+    as a plain channel.  The file is sparse: a few known values are written, the rest reads as zeros, so it costs no disk
+    space, and only a handful of chunks are read: windows around value 2^30 and at both ends, the first chunks of the
+    stream.  Offsets and counts beyond 31 / 32 bits must not wrap.  -> list of (signature, bundle)"""
+    import os
+    import struct
+    import tempfile
+    import shutil
+    import numpy as np
+    from nptdms import TdmsFile
+    from .common import ROOT
+    CH, NCH = 1000, 1100000
+    TOTAL = CH * NCH
+
+    def tstr(x):
+        b = x.encode("utf-8")
+        return struct.pack("<L", len(b)) + b
+    known = {0: 11, 1: 12, 999: 13, 1000: 14, 2 ** 30 - 1: 15, 2 ** 30: 16, 2 ** 30 + 1: 17, TOTAL - 1000: 18,
+             TOTAL - 2: 19, TOTAL - 1: 20}
+    fails = []
+    tmp = tempfile.mkdtemp(prefix="c11-big-", dir=os.path.join(ROOT, ".work"))
+    try:
+        for storage in ("daqmx", "plain"):
+            path_ = "/'Group'/'Channel1'"
+            if storage == "daqmx":
+                scaler = struct.pack("<LLLLL", 3, 0, 0, 0, 0)
+                obj = tstr(path_) + struct.pack("<LLLQ", 0x1269, 2, 1, CH) + struct.pack("<L", 1) + scaler + \
+                    struct.pack("<LL", 1, 2) + struct.pack("<L", 0)
+                toc = (1 << 1) | (1 << 2) | (1 << 3) | (1 << 7)
+            else:
+                obj = tstr(path_) + struct.pack("<LLLQ", 20, 2, 1, CH) + struct.pack("<L", 0)
+                toc = (1 << 1) | (1 << 2) | (1 << 3)
+            meta = struct.pack("<L", 1) + obj
+            size = 2 * TOTAL
+            lead = b"TDSm" + struct.pack("<llQQ", toc, 4713, len(meta) + size, len(meta))
+            start = len(lead) + len(meta)
+            fp = os.path.join(tmp, storage + ".tdms")
+            with open(fp, "wb") as fh:
+                fh.write(lead + meta)
+                for i, v in known.items():
+                    fh.seek(start + 2 * i)
+                    fh.write(struct.pack("<h", v))
+                fh.truncate(start + size)
+            probs = []
+            try:
+                with TdmsFile.open(fp) as f:
+                    ch = f["Group"]["Channel1"]
+                    if len(ch) != TOTAL:
+                        probs.append("len(channel) = %r, expected %d" % (len(ch), TOTAL))
+                    for off, ln in [(0, 3), (998, 4), (2 ** 30 - 2, 5), (TOTAL - 1001, 3), (TOTAL - 3, 3)]:
+                        got = ch.read_data(off, ln)
+                        want = np.array([known.get(i, 0) for i in range(off, off + ln)], dtype=np.int16)
+                        if got.dtype != want.dtype or not np.array_equal(got, want):
+                            probs.append("read_data(%d, %d) = %r, expected %r" % (off, ln, got.tolist(), want.tolist()))
+                    for i in (2 ** 30, TOTAL - 1, -2):
+                        v = ch[i]
+                        if int(v) != known[i % TOTAL]:
+                            probs.append("channel[%d] = %r, expected %d" % (i, v, known[i % TOTAL]))
+                    it = ch.data_chunks()
+                    a, b = next(it)[:], next(it)[:]
+                    if a[0] != 11 or a[999] != 13 or b[0] != 14:
+                        probs.append("data_chunks(): first chunks start %r / %r" % (a[:2].tolist(), b[:2].tolist()))
+            except Exception as ex:  # noqa
+                probs.append("reading raised %s: %s" % (type(ex).__name__, ex))
+            os.remove(fp)
+            if probs:
+                fails.append(({"kind": "large-file", "storage": storage, "what": probs[0].split(" ")[0]},
+                              {"storage": storage, "chunks": NCH, "values_per_chunk": CH, "problems": probs[:6]}))
+    finally:
+        shutil.rmtree(tmp, ignore_errors=True)
+    return fails
